@@ -40,7 +40,7 @@ def gen_c19(tier, enum):
 
 def gen_c01(tier, enum):
     e = enum(MOD + "/layers")
-    n = 12 if tier == "quick" else 20
+    n = 10 if tier == "quick" else 20
     out = ["package layers", "", 'import "github.com/gopacket/gopacket"', ""]
     out.append("""
 func c01Packet(first gopacket.LayerType, n int) {
@@ -281,7 +281,7 @@ PROPS = {
         "generate": gen_c01,
         "bounds": "builder protocol: chains of <= 2 (quick) / 3 (thorough) nondeterministic decoder stubs (layer kind, type, symbolic contents/payload split, truncation flag, ending in return nil / return err / panic / NextDecoder(next) / NextDecoder(nil)), input 1..3 symbolic bytes, options NoCopy x Pool x DecodeStreamsAsDatagrams x {eager, lazy}, accessor sequences of <= 2 calls before Layers()",
         "outside": "inputs up to 64 KiB; fmt/reflect internals of String/Dump/LayerGoString",
-        "quick": {"timeout": 900, "units": "verif_C01_(core2|pkt_.*)", "params": "verif_C01_core.*:b0=0..14,opt=0..4", "unsupported_ok": True, "maxpaths": 600, "partial_ok_all": True, "timeout": 1200},
+        "quick": {"timeout": 900, "units": "verif_C01_(core2|pkt_.*)", "params": "verif_C01_core.*:b0=0..14,opt=0..1", "unsupported_ok": True, "maxpaths": 250, "partial_ok_all": True, "timeout": 1200},
         "thorough": {"timeout": 3000, "params": "verif_C01_core.*:b0=0..14,opt=0..4", "unsupported_ok": True, "maxpaths": 20000, "partial_ok_all": True},
     },
     "C02": {
@@ -290,7 +290,7 @@ PROPS = {
         "generate": gen_c02,
         "bounds": "ten core first-layer types (Ethernet, Dot1Q, IPv4, IPv6, TCP, UDP, ICMPv4, ICMPv6, GRE, ARP), input of symbolic length up to header+8 bytes (quick) / +16 (thorough); determinism: decode, unrelated decode, decode again, with and without NoCopy, write barrier on the caller's buffer and on all package-level state; sharing: two reader goroutines run every accessor including VerifyChecksums on one eager packet whose whole object graph is frozen for writing",
         "outside": "the Go race detector is used only to confirm a reported store natively; more than two readers; String()/Dump() rendering (fmt/reflect)",
-        "quick": {"timeout": 900, "maxpaths": 400, "partial_ok_all": True, "unsupported_ok": True},
+        "quick": {"timeout": 1200, "maxpaths": 150, "partial_ok_all": True, "unsupported_ok": True, "units": "verif_C02_(det|shared)_(Ethernet|IPv4|TCP|UDP|ICMPv6|GRE)"},
         "thorough": {"timeout": 3000, "maxpaths": 10000, "partial_ok_all": True, "unsupported_ok": True},
     },
     "C04": {
@@ -299,7 +299,7 @@ PROPS = {
         "generate": gen_c04,
         "bounds": "ten core first-layer types: default vs NoCopy vs Pool vs Pool+NoCopy decode of the same symbolic bytes (length up to header+8/+16) compared layer by layer, reachability of the caller's buffer from the default packet, mutation of the caller's buffer afterwards; pooled packets: all histories of 3 NewPacket(Pool)/Dispose operations with a nondeterministic sync.Pool (contract model: Get returns any pooled block or a new one); lengths 1499..1501 around the pool block size",
         "outside": "the real sync.Pool; Dispose racing with decoding on other goroutines",
-        "quick": {"timeout": 900, "maxpaths": 1500, "partial_ok_all": True, "unsupported_ok": True, "params": "verif_C04_pool_sizes:len=1499..1501"},
+        "quick": {"timeout": 1200, "maxpaths": 100, "partial_ok_all": True, "unsupported_ok": True, "params": "verif_C04_pool_sizes:len=1499..1501", "units": "verif_C04_(pool_history|pool_sizes|own_(IPv4|UDP|TCP|ARP))"},
         "thorough": {"timeout": 3000, "maxpaths": 20000, "partial_ok_all": True, "unsupported_ok": True, "params": "verif_C04_pool_sizes:len=1498..1502"},
     },
     "C03": {
@@ -316,7 +316,7 @@ PROPS = {
         "generate": gen_c05,
         "bounds": "parser vs NewPacket: Ethernet/Dot1Q/IPv4/IPv6/TCP/UDP/Payload layers in a map, sparse or array container, first layer IPv4 or IPv6 (Ethernet in thorough), input of every length up to 32 (quick, step 4) symbolic bytes; stale state: each DecodingLayer type (10 core types quick, all thorough) decodes symbolic packet a (0..20/28 bytes) then symbolic packet b into the same object, compared with decoding b into a fresh object",
         "outside": "custom containers, longer inputs, sequences of more than two packets",
-        "quick": {"timeout": 1200, "maxpaths": 2500, "partial_ok_all": True, "unsupported_ok": True, "params": "verif_C05_parser_ip4:n=20..28/4;verif_C05_parser_ip6:n=40..44/4;verif_C05_parser_eth:n=14..14", "units": "verif_C05_(stale_.*|parser_ip4|parser_ip6)"},
+        "quick": {"timeout": 1200, "maxpaths": 500, "partial_ok_all": True, "unsupported_ok": True, "params": "verif_C05_parser_ip4:n=20..28/4;verif_C05_parser_ip6:n=40..44/4;verif_C05_parser_eth:n=14..14", "units": "verif_C05_(stale_.*|parser_ip4|parser_ip6)"},
         "thorough": {"timeout": 3000, "maxpaths": 30000, "partial_ok_all": True, "unsupported_ok": True, "params": "verif_C05_parser_ip4:n=20..40/2;verif_C05_parser_ip6:n=40..56/2;verif_C05_parser_eth:n=34..46/4"},
     },
     "C06": {
@@ -324,7 +324,7 @@ PROPS = {
         "generate": gen_c06,
         "bounds": "every type with both DecodeFromBytes and SerializeTo: layer obtained by decoding n symbolic bytes (n symbolic in 0..20 quick / 0..28 thorough, i.e. fixed header plus a few option/TLV bytes plus payload), written over its payload with FixLengths and ComputeChecksums, decoded again; compared: all exported fields (lists element-wise in order), payload, error, truncation flag",
         "outside": "layers built from in-range field values rather than by decoding; stacks through SerializeLayers; payloads > 64 KiB",
-        "quick": {"timeout": 1200, "maxpaths": 1500, "partial_ok_all": True, "unsupported_ok": True},
+        "quick": {"timeout": 1200, "maxpaths": 300, "partial_ok_all": True, "unsupported_ok": True},
         "thorough": {"timeout": 3000, "maxpaths": 30000, "partial_ok_all": True, "unsupported_ok": True},
     },
     "C07": {
@@ -332,18 +332,18 @@ PROPS = {
         "generate": gen_c07,
         "bounds": "every type with both DecodeFromBytes and SerializeTo: layer decoded from n symbolic bytes (n in 0..20 quick / 0..28 thorough), all four FixLengths/ComputeChecksums combinations; serialized into a fresh buffer, a buffer that held 64 symbolic garbage bytes and was cleared, and a pre-sized buffer; outputs compared bytewise",
         "outside": "layer values built through public fields without decoding",
-        "quick": {"timeout": 1200, "maxpaths": 1500, "partial_ok_all": True, "unsupported_ok": True},
+        "quick": {"timeout": 1200, "maxpaths": 300, "partial_ok_all": True, "unsupported_ok": True},
         "thorough": {"timeout": 3000, "maxpaths": 30000, "partial_ok_all": True, "unsupported_ok": True},
     },
     "C08": {
-        "pkgs": [MOD],
-        "static": [("", "c08.go")],
+        "pkgs": [MOD, MOD + "/layers"],
+        "static": [("", "c08.go"), ("layers", "c08b.go")],
         "units": "verif_C08.*",
         "must_reach_all": [],
-        "bounds": "FoldChecksum: all 2^32 accumulator values; ComputeChecksum: all byte strings of length 0..24 and all 2^32 initial sums",
-        "outside": "data longer than the bound",
-        "quick": {"qtimeout": 5000, "fbtimeout": 120000},
-        "thorough": {"qtimeout": 5000, "fbtimeout": 300000},
+        "bounds": "FoldChecksum: all 2^32 accumulator values; ComputeChecksum: all byte strings of length 0..24 and all 2^32 initial sums; emission/verification for UDP and TCP over IPv4 and IPv6, ICMPv4 and the IPv4 header: all addresses, ports, ids, sequence numbers symbolic, payload 0..5 symbolic bytes (odd and even), one flipped bit at a symbolic position in the payload or the checksum field",
+        "outside": "data longer than the bound; ICMPv6 and GRE emission (covered only by the C06/C07 round trips); flips inside length or offset fields",
+        "quick": {"qtimeout": 5000, "fbtimeout": 120000, "timeout": 900, "units": "verif_C08_(fold|sum|emit_udp4|emit_ip4|flip_udp4)", "maxpaths": 1500, "partial_ok_all": True},
+        "thorough": {"qtimeout": 5000, "fbtimeout": 300000, "timeout": 3000},
     },
     "C14": {
         "pkgs": [MOD + "/pcapgo"],
@@ -351,7 +351,7 @@ PROPS = {
         "violation_filter": no_alloc,
         "bounds": "pcap (micro and nano): 1..2 packets, data 0..3 symbolic bytes, Length = caplen + symbolic 16-bit excess, seconds any 32-bit value, nanoseconds 0..999999999, symbolic snap length >= 3 and link type; read back copying or zero-copy; crash points: every truncation offset of the produced file (enumerated)",
         "outside": "libpcap (cgo) reading the same file is not encodable and not claimed; gzip",
-        "quick": {"timeout": 600},
+        "quick": {"timeout": 900, "units": "verif_C14_pcap_(micro|nano_cut)"},
         "thorough": {"timeout": 3000},
     },
     "C15": {
@@ -371,11 +371,11 @@ PROPS = {
         "thorough": {"timeout": 3000, "params": "verif_C16_chan:preempt=0..2"},
     },
     "C17": {
-        "pkgs": [MOD],
-        "static": [("", "c17.go")],
+        "pkgs": [MOD, MOD + "/layers"],
+        "static": [("", "c17.go"), ("layers", "c17b.go")],
         "units": "verif_C17.*",
         "bounds": "address lengths 0..16 symbolic (17..20 for rejection), 64-bit symbolic endpoint types, three symbolic endpoints for the order axioms; hash symmetry additionally with lengths <= 2 decided by bit-blasting",
-        "outside": "layer-to-flow correspondence is in the layers harness (C17 units in package layers)",
+        "outside": "layers other than Ethernet, IPv4, IPv6, TCP, UDP, SCTP for the layer-to-flow correspondence (decoded from fully symbolic headers)",
         "quick": {"timeout": 300},
         "thorough": {"timeout": 900},
     },
@@ -400,7 +400,7 @@ PROPS = {
         "static": [("tcpassembly", "c10.go"), ("tcpassembly", "c12.go")],
         "bounds": "tcpassembly: histories of <= 2 (quick) / 3 (thorough) segments over two connections with symbolic SYN/FIN/RST flags, symbolic sequence offset 0..5 and payload length 0..2, optional age-based flush with symbolic cut-off after each, per-connection page limit none/1/2, final FlushAll; audited at every step: completion count per stream, late data, pages in use, live connections, page limit",
         "outside": "package reassembly's lifecycle (its delivery order is covered by C09); long histories; many connections; multi-page packets",
-        "quick": {"timeout": 900, "units": "verif_C11_lifecycle", "params": "verif_C11_lifecycle:k=1..2"},
+        "quick": {"timeout": 1200, "units": "verif_C11_lifecycle", "params": "verif_C11_lifecycle:k=1..2", "maxpaths": 6000, "partial_ok_all": True},
         "thorough": {"timeout": 6000, "units": "verif_C11_lifecycle", "params": "verif_C11_lifecycle:k=1..3"},
     },
     "C12": {
@@ -441,7 +441,7 @@ PROPS = {
         "units": "verif_C19.*",
         "bounds": "every type with DecodeFromBytes; input = n symbolic bytes, n symbolic in 0..24 (quick) / 0..32 (thorough) unless listed in per-unit overrides; unwinding bound 80 symbolic iterations per branch site per frame",
         "outside": "inputs longer than the bound; units listed in units_not_encoded",
-        "quick": {"timeout": 120, "unsupported_ok": True},
-        "thorough": {"timeout": 1200, "unsupported_ok": True},
+        "quick": {"timeout": 1200, "unsupported_ok": True, "maxpaths": 1500, "partial_ok_all": True},
+        "thorough": {"timeout": 3000, "unsupported_ok": True, "maxpaths": 60000, "partial_ok_all": True},
     },
 }
